@@ -30,9 +30,9 @@ PROPS = {
         'explanation': 'Verus: freshen / filter_by_set / fresh_identifier contracts. Bounded: random non-linear programs -> Prog::linearize -> executable postcondition + behavioural equality on a reference machine.',
     },
     'C06': {
-        'units': ['x86_code'],
+        'units': ['x86_code', 'x86_memory', 'x86_moves', 'x86_routine', 'x86_print'],
         'kill_units': ['x86_code'],
-        'aux': ['native_emitters_x86', 'native_moves', 'native_programs_x86'],
+        'aux': ['native_emitters_x86', 'native_moves_x86', 'native_heap_x86', 'native_prints_x86', 'native_programs_x86'],
         'level': 'proof',
         'claim': 'Every instruction emitter of the x86-64 backend is proved, for all operand placements (registers / spill slots, every aliasing pattern the call sites allow) and all 64-bit contents, to have exactly the effect of the abstract operation on an explicit ISA model, with a full frame (everything but the named scratch locations unchanged). This is the instruction-selection layer of C06, proved without bound; whole-program simulation is not decided.',
         'note': 'Trusted: the hand-written ISA specification, the extraction rules, the printer, Verus/Z3. Program-level composition is not decided.',
@@ -41,9 +41,9 @@ PROPS = {
         'explanation': 'Hoare-style contracts over an x86-64 ISA specification on every instruction emitter of axcut2x86_64, for all operand placements and all 64-bit values',
     },
     'C07': {
-        'units': ['a64_code'],
+        'units': ['a64_code', 'a64_memory', 'a64_moves', 'a64_routine', 'a64_print'],
         'kill_units': ['a64_code'],
-        'aux': ['native_emitters_a64', 'native_moves', 'kani_bitkernels', 'native_programs_a64'],
+        'aux': ['native_emitters_a64', 'native_moves_a64', 'native_heap_a64', 'native_prints_a64', 'kani_bitkernels', 'native_programs_a64'],
         'level': 'proof',
         'claim': 'Every instruction emitter of the AArch64 backend is proved, for all operand placements and all 64-bit contents, to have exactly the effect of the abstract operation on an explicit A64 model (including the three code paths of rem with their scratch-register clashes and, for load_immediate, the MOVZ/MOVN/MOVK synthesis of every 64-bit literal), with a full frame. Whole-program simulation is not decided.',
         'note': 'Trusted: the hand-written A64 specification, the extraction rules, the printer, Verus/Z3.',
@@ -52,9 +52,9 @@ PROPS = {
         'explanation': 'Hoare-style contracts over an A64 ISA specification on every instruction emitter of axcut2aarch64',
     },
     'C08': {
-        'units': ['rv64_code'],
+        'units': ['rv64_code', 'rv64_memory', 'rv64_moves'],
         'kill_units': ['rv64_code'],
-        'aux': ['native_emitters_rv', 'native_moves', 'native_programs_rv'],
+        'aux': ['native_emitters_rv', 'native_moves_rv', 'native_heap_rv', 'native_programs_rv'],
         'level': 'proof',
         'claim': 'Every Instructions method of the RISC-V backend is proved to push instructions whose effect on an RV64 model is exactly the abstract operation (one instruction each; add_and_jump uses the scratch register X1), the variable-to-register map is 2*position + number + 4 with the capacity assertion unreachable below 14 variables, and print_i64 is unreachable for print-free programs. All three backends are proved against the same effect vocabulary (wadd/wsub/wmul/wdiv/wrem, slt/sle), which is the sense in which they agree. Whole-program simulation is not decided.',
         'note': 'Trusted: the hand-written RV64 specification (LW/SW read as 64-bit accesses as the property states), extraction rules, Verus/Z3.',
